@@ -133,6 +133,7 @@ pub fn sites(_tier: Tier) -> Vec<Site> {
             ("NUL first", b"\0xyz".to_vec()),
             ("a NUL NUL b", b"a\0\0b".to_vec()),
             ("abc NUL", b"abc\0".to_vec()),
+            ("NUL ab NUL cd NUL", b"\0ab\0cd\0".to_vec()),
             ("full no NUL", vec![]),
             // the byte in front of the NUL is half of something: a double-byte character cut after its lead
             // byte, a lone caret, a marker without text, a high single byte
@@ -148,16 +149,19 @@ pub fn sites(_tier: Tier) -> Vec<Site> {
             ("e9 NUL xy", vec![0xe9, 0, b'x', b'y']),
             ("^E e9 NUL ^L", vec![b'^', b'E', 0xe9, 0, b'^', b'L', 0xe9]),
         ];
-        let n = tfs.len() as u64 * fills.len() as u64;
+        let n = tfs.len() as u64 * fills.len() as u64 * 2;
         sites.push(Site::new("decode-first-nul", n,
             "every text-bearing field x hand-built field contents {text NUL text, NUL first, double NUL, exactly full without NUL, and 11 contents whose last byte before the NUL is half of something: a cut double-byte character in each double-byte page, a lone caret, a bare marker, a high byte}",
             move |i, acc| {
+                // (around the field: the all-default frame and the frame with every other field off its default)
+                let which_base = (i % 2) as u8;
+                let i = i / 2;
                 let t = &tfs2[(i / fills.len() as u64) as usize];
                 let (fname, fill) = &fills[(i % fills.len() as u64) as usize];
                 acc.eval();
                 let kind = kinds.iter().find(|k| k.name == t.kind).unwrap();
                 // start from the reference B0 frame (one element for HOS)
-                let mut vals = baseline(kind, 0);
+                let mut vals = baseline(kind, which_base);
                 if t.kind == "HOS" {
                     let li = kind.fields.iter().position(|f| matches!(f.ty, spec::Ty::List { .. })).unwrap();
                     if let spec::Ty::List { elem, .. } = &kind.fields[li].ty {
